@@ -4,7 +4,6 @@ from vf.e2 import propbase
 PROP = "C12"
 PART = {}
 LEVEL = "model_checking"
-CASES = {}
 SCN = "stopping"
 FUNCTIONS = []
 ASSUMPTIONS = [
@@ -17,6 +16,8 @@ ASSUMPTIONS = [
   "insertion is 'fresh' when the timer's last look at its run flag was after the return as well, 'stale' when it looked before the return and posts after",
   "time.sleep is a step that may take arbitrarily long relative to the other threads; thread.join is enabled when the object's thread function has returned; "
   "joining the current thread raises RuntimeError as in CPython",
+  "E1 part (h_stop_phases): the real stop() on real objects with recording thread stand-ins, phase interleavings: the step in flight may start a new timed "
+  "source or call stop() itself; a second active object and the fabric must stay up",
   "other active objects and the fabric: their run flags are separate objects the translated stop() never touches (checked on the translated program: it has no "
   "operation on them)",
 ]
@@ -44,8 +45,129 @@ def bounds(tier):
           "handler_stop = stop() is called by the handler of the first pending event; capacity 3"}
 
 
+# ---- E1 part: phase interleavings on the real objects (threads are recording stand-ins) -------------------------------
+from vf.core import PASS, FAIL                     # noqa: E402
+from vf.family import Family, set_tier_all, jobs_all   # noqa: E402
+
+LIM = {"quick": dict(NS=2, PEND=2), "thorough": dict(NS=3, PEND=3)}
+SRC_NAMES = ["W_A", "W_B", "W_A"]
+
+
+def pre(v, lim):
+  if v["ns"] > lim["NS"] or v["pend"] > lim["PEND"]:
+    return False
+  if v["pend"] == 0 and (v["hpost"] != 0 or v["where"] == 1):
+    return False         # the handler variants need a step to run
+  return True
+
+
+def case(ns, pend, hpost, where, deferred):
+  """ns tracked sources, pend pending events; the first pending event's handler posts a timed source (hpost: 0 no, 1 an existing name, 2 a new name)
+  and/or calls stop() itself (where=1); where=0: stop() is called from outside while that step is in flight"""
+  from vf import fabric, hosts
+  hsm, ao = fabric.install()
+  import miros.event as ev
+  vt = fabric.VirtualTime()
+  ao.time = vt
+  rs, signals = ev.return_status, ev.signals
+  log = []
+  box = {}
+
+  class StopThread(fabric.FabricThread):
+    inside = False
+
+    def join(self, timeout=None):
+      if self.inside:
+        raise RuntimeError("cannot join current thread")
+      self.inside = True
+      try:
+        return super().join(timeout)
+      finally:
+        self.inside = False
+  ao.Thread = StopThread
+
+  def only(chart, e):
+    if e.signal in (signals.ENTRY_SIGNAL, signals.INIT_SIGNAL, signals.EXIT_SIGNAL):
+      return rs.HANDLED
+    if e.signal_name.startswith("W"):
+      log.append(e.signal_name)
+      if e.signal_name == "W_P0":
+        if hpost:
+          chart.post_fifo(ev.Event(signal="W_A" if hpost == 1 else "W_NEW"), period=1, times=0, deferred=bool(deferred))
+        if where == 1:
+          chart.stop()
+          box["stopped_in_handler"] = len(log)
+      return rs.HANDLED
+    chart.temp.fun = chart.top
+    return rs.SUPER
+  a = ao.ActiveObject(name="a")
+  a.start_at(only)
+  other, olog = fabric.make_active_object(ao, hsm, name="other")
+  what = "sources=%d pending=%d handler-posts=%d stop-from=%s deferred=%d" % (ns, pend, hpost, "handler" if where else "outside", deferred)
+  try:
+    for i in range(ns):
+      a.post_fifo(ev.Event(signal=SRC_NAMES[i]), period=1, times=0, deferred=bool(deferred))
+    for i in range(pend):
+      a.post_fifo(ev.Event(signal="W_P%d" % i))
+    me = [t for t in hosts.SimThread.registry if getattr(t.target, "__name__", "") == "run_event" and t.args and t.args[-1] is a.queue][0]
+    if where == 0:
+      a.stop()
+    else:
+      me.inside = True
+      try:
+        me.target(fabric.AlreadyInside(me.args[0]), *me.args[1:])       # the object's thread takes its next wake-up and runs the step
+        me.ended = True
+      finally:
+        me.inside = False
+    n_after = len(log)
+    if not me.ended:
+      return FAIL("thread-alive-after-stop", "%s: the object's thread has not ended" % what)
+    # no further run-to-completion step: the thread body, run again with its real flag, must do nothing
+    try:
+      me.target(*me.args)
+    except fabric.WouldBlock:
+      return FAIL("thread-would-run-on", "%s: after stop the thread body still waits for events" % what)
+    if len(log) != n_after:
+      return FAIL("dispatch-after-stop", "%s: dispatched %s after stop" % (what, log[n_after:]))
+    if where == 1 and box.get("stopped_in_handler") != len(log):
+      return FAIL("dispatch-after-stop:from-handler", "%s: steps %s ran after the step that called stop()" % (what, log[box.get("stopped_in_handler", 0):]))
+    if where == 0 and pend > 1 and len(log) > 1:
+      return FAIL("dispatch-after-stop", "%s: more than the step in flight ran: %s" % (what, log))
+    timers = fabric.timer_threads()
+    up = [i for i, t in enumerate(timers) if t.args[0].task_run_event.is_set()]
+    if up:
+      return FAIL("source-not-cancelled", "%s: after stop() %d of %d timed sources still have their run flag up (sources %s)" % (what, len(up), len(timers), up))
+    if len(a.posted_events_queue) != 0:
+      return FAIL("source-still-tracked", "%s: %d sources still tracked" % (what, len(a.posted_events_queue)))
+    qlen = len(a.queue.deque)
+    for t in timers:
+      try:
+        t.target(*t.args)            # a cancelled source's body must post nothing more
+      except fabric.CutInfiniteSource:
+        pass
+    if len(a.queue.deque) != qlen:
+      return FAIL("cancelled-source-posts", "%s: a timer body posted after stop()" % what)
+    oth = [t for t in hosts.SimThread.registry if getattr(t.target, "__name__", "") == "run_event" and t.args and t.args[-1] is other.queue][0]
+    if not oth.is_alive() or not other.activeobject_task_event.is_set():
+      return FAIL("other-object-stopped", "%s: another active object was stopped too" % what)
+    if not a.fabric.is_alive():
+      return FAIL("fabric-stopped", "%s: the fabric was stopped too" % what)
+  except Exception as ex:
+    return FAIL("raised:" + type(ex).__name__, "%s: %r" % (what, ex))
+  finally:
+    ao.time = __import__("time")
+  return PASS(nontrivial=ns > 0 or pend > 0)
+
+
+Family(globals(), "h_stop_phases", params=[("ns", 0, 3), ("pend", 0, 3), ("hpost", 0, 2), ("where", 0, 1), ("deferred", 0, 1)], pre=pre, case=case, split=["where"], tiers=LIM)
+
+
+def set_tier(tier):
+  set_tier_all(globals(), tier)
+
+
 def jobs(tier):
-  return []
+  return jobs_all(globals(), tier)
 
 
 def specs(tier):
